@@ -692,7 +692,9 @@ func runC04(c *Ctx) {
 		if _, _, v := storedField(site); isNilConst(v) {
 			continue
 		}
-		c.obUnreach("recipients=append", site, `invoke:Session.Rcpt != nil`)
+		for _, ea := range c.cbErrAtoms(lRcpt, "invoke:Session.Rcpt", site.Parent()) {
+			c.obUnreach("recipients=append", site, ea+` != nil`)
+		}
 		R.Ob(c.siteKey(site, "recipients append after Session.Rcpt"), c.P.InstrPos(site), s.SeenBefore(site)[lRcpt], "a recipient is recorded before the backend was asked: a refused recipient still gets a final reply (250 for a refused mailbox, every later reply shifted)")
 	}
 	ruleResetEffects(c)
